@@ -115,9 +115,9 @@ def print_axioms(theorems, imports, timeout=1200):
             pass
     out = p.stdout
     res = {t: None for t in theorems}
-    for m in re.finditer(r"'([^']+)' depends on axioms: \[([^\]]*)\]", out, flags=re.S):
+    for m in re.finditer(r"^'(\S+)' depends on axioms: \[([^\]]*)\]", out, flags=re.S | re.M):
         res[m.group(1)] = [a.strip() for a in m.group(2).replace("\n", " ").split(",") if a.strip()]
-    for m in re.finditer(r"'([^']+)' does not depend on any axioms", out):
+    for m in re.finditer(r"^'(\S+)' does not depend on any axioms", out, flags=re.M):
         res[m.group(1)] = []
     return res, out
 
